@@ -122,5 +122,7 @@ Print Assumptions C09_lock_unknown_group.
 Example C09_nonvacuous :
   exists s', step_x init (OParam nm_POINT (mkParam [88] [100] true TInt [2] [1%Z; 2%Z] [] [])) = ROk tt s' /\
              lookup (groups s') nm_POINT [88] = Ok (mkParam [88] [100] true TInt [2] [1%Z; 2%Z] [] []).
-Proof. eexists. split; vm_compute; reflexivity. Qed.
+Proof.
+  eexists. split; [vm_compute; reflexivity|]. vm_compute; reflexivity.
+Qed.
 Print Assumptions C09_nonvacuous.
